@@ -1,11 +1,6 @@
 // ---- ghost vocabulary for the char-wise iterators: spec streams over the DA, input = UTF-8 bytes ----
 //@include ghost_chain.rs
-spec fn cw_opos(s: State) -> nat { opt_n(s.output_pos) }
-
-spec fn outs_ok_cw<V>(st: Seq<State>, outs: Seq<Output<V>>) -> bool {
-    &&& forall|i: int| 0 <= i < st.len() ==> cw_opos(#[trigger] st[i]) <= outs.len()
-    &&& forall|j: int| 0 <= j < outs.len() ==> out_parent(#[trigger] outs[j]) <= j
-}
+//@include ghost_outs_cw.rs
 
 spec fn cw_ovl_scan<V>(st: Seq<State>, tb: Seq<u32>, outs: Seq<Output<V>>, s: int, rest: Seq<u8>, k: nat) -> Seq<Match<V>>
     decreases rest.len()
